@@ -588,17 +588,18 @@ inductive Arg where
 
 abbrev Args := List (String × Arg)
 
-/-- evaluating a query expression: `none` = nil pointer dereference (panic) -/
+/-- evaluating a query expression: `none` = nil pointer dereference (panic).
+    (An argument of the wrong kind cannot be passed in Go; the model treats it like a nil pointer.) -/
 def evalExpr (args : Args) : Expr → Option Val
   | .param p =>
     match getKV args p with
     | some (.scalar v) => some v
-    | _ => some (.txt [])
+    | _ => some .nilPtr
   | .field p f _ =>
     match getKV args p with
     | some (.struct true _) => none                                   -- Q3
-    | some (.struct false fs) => some ((getKV fs f).getD (.txt []))
-    | _ => some (.txt [])
+    | some (.struct false fs) => some ((getKV fs f).getD .nilPtr)
+    | _ => some .nilPtr
 
 /-- `strings.Replace(s, old, new, 1)` for a non-empty `old` -/
 def replaceFirst (old new : List Char) : List Char → List Char
